@@ -31,6 +31,20 @@ CLAIMS = {
         technique="contract-based deductive verification: sidecar contracts on the real codec functions, per-path VCs from the real AST, "
                   "z3 + cvc5; json as an assumed inverse pair; counter-models replayed on the real code",
         design_ref="DESIGN.md section 3 C03"),
+    'C18': dict(
+        text="Sizing: for ALL requests -- z3 proves from the real filter lambda that the result depends on the request only through "
+             "its cell in the grid cut by the catalogue's values, an AST frame check shows the request is read nowhere else, and the "
+             "real function is then executed on one representative of every cell (complete finite quotient, 2450 cells) against the "
+             "brute-force Pareto oracle (sufficient; no other sufficient size <= in every dimension; largest otherwise; name and "
+             "capacities agree). Components: the real generate_component is executed symbolically for every catalogue entry with "
+             "symbolic names, ids and label lists; type/model/details, exactly the catalogued ports, speeds, kinds, unit counts, id and "
+             "label placement, service name/type and wrong-length rejection are discharged on every path; the enumeration, search and "
+             "details functions are compared with the catalogue file exhaustively.",
+        note="The two catalogue JSON files are the ones the library loads; BaseSliver.set_name replaced by its contract (proved in "
+             "C16); uuid4 modelled as a fresh identifier; label lists per interface: no bdf / scalar bdf / bdf list of 2.",
+        technique="contract-based deductive verification (z3 cell lemma + AST frame obligation) reducing all requests to a finite "
+                  "quotient executed exhaustively on the real function; symbolic execution of generate_component against contracts",
+        design_ref="DESIGN.md section 3 C18"),
     'C16': dict(
         text="For every label field the real Labels._set_fields is proved, for all strings, to accept exactly the documented domain "
              "(published pattern matched against the whole string with CPython regex semantics incl. Unicode classes, plus the "
